@@ -443,7 +443,13 @@ def parseLine(raw, eols=(CRLF, LF, CR ), kind="event line"):
 
     Raise error if eol not found before MAX_LINE_SIZE
     """
+    tail = b''  # rest of eol split across reads such as LF of CRLF when CR ended raw
     while True:
+        if tail and raw:  # drop rest of split eol if any
+            if raw.startswith(tail):
+                del raw[:len(tail)]
+            tail = b''
+
         index, eol = -1, b''
         for e in eols:  # earliest eol in raw, first listed wins a tie
             i = raw.find(e)  # not found i == -1
@@ -462,6 +468,10 @@ def parseLine(raw, eols=(CRLF, LF, CR ), kind="event line"):
 
         line = raw[:index]
         index += len(eol)  # strip eol
+        if index == len(raw):  # eol ended raw so may be start of longer eol
+            for e in eols:
+                if len(e) > len(eol) and e.startswith(eol):
+                    tail = e[len(eol):]
         del raw[:index] # remove used bytes
         (yield line)
     return
